@@ -965,12 +965,8 @@ Qed.
 Lemma run_wf_targets : forall ids cs c, run_wf ids cs = true -> In c cs -> NoDup (target_names c).
 Proof.
   intros ids cs c H Hc; unfold run_wf in H; rewrite forallb_forall in H; specialize (H c Hc).
-  apply andb_true_iff in H; destruct H as [Hi Hn].
-  unfold target_names; rewrite target_names_family.
-  - apply nodupb_NoDup; exact Hn.
-  - intros i Hin; rewrite forallb_forall in Hi; specialize (Hi i Hin); unfold inst_wf in Hi.
-    repeat (apply andb_true_iff in Hi; destruct Hi as [Hi ?]).
-    apply Nat.eqb_eq; assumption.
+  apply andb_true_iff in H; destruct H as [_ Hn].
+  unfold target_names; apply nodupb_NoDup; exact Hn.
 Qed.
 
 Lemma chrom_changes_eq : forall d ch names rs wr,
